@@ -80,35 +80,46 @@ impl<T: PartialEq> FromIterator<T> for VecSet<T> {
     fn from_iter<I: IntoIterator<Item = T>>(it: I) -> Self { let mut s = VecSet::new(); for x in it { s.insert(x); } s }
 }
 
-/// lru::LruCache stand-in: bounded map, most-recent at the back.
-/// Contract assumed of lru 0.12: get/promote move to MRU; push inserts (or updates and
-/// returns the old pair for an existing key) and returns the evicted LRU pair when full;
-/// pop removes; clear empties.
+/// lru::LruCache stand-in: bounded map with recency stamps (no element is moved on a hit: CBMC
+/// loses precision across the memmove of remove+push).
+/// Contract assumed of lru 0.12: get/promote mark the entry most-recently-used; push inserts (or
+/// replaces and returns the old pair for an existing key) and, when full, replaces and returns the
+/// least-recently-used pair; pop removes; clear empties.
 #[derive(Clone, Debug)]
-pub struct LruCache<K, V> { pub cap: usize, pub items: Vec<(K, V)> }
+pub struct LruCache<K, V> { pub cap: usize, pub items: Vec<(K, V)>, pub stamps: Vec<u64>, pub clock: u64 }
 impl<K: PartialEq + Clone, V> LruCache<K, V> {
-    pub fn new(cap: std::num::NonZeroUsize) -> Self { LruCache { cap: cap.get(), items: Vec::new() } }
+    pub fn new(cap: std::num::NonZeroUsize) -> Self {
+        let c = cap.get();
+        let a = if c < 8 { c } else { 8 };
+        LruCache { cap: c, items: Vec::with_capacity(a), stamps: Vec::with_capacity(a), clock: 0 }
+    }
     fn pos<Q: ?Sized>(&self, k: &Q) -> Option<usize> where K: std::borrow::Borrow<Q>, Q: PartialEq {
         let mut i = 0;
         while i < self.items.len() { if self.items[i].0.borrow() == k { return Some(i); } i += 1; }
         None
     }
+    fn touch(&mut self, i: usize) { self.clock += 1; self.stamps[i] = self.clock; }
     pub fn get<Q: ?Sized>(&mut self, k: &Q) -> Option<&V> where K: std::borrow::Borrow<Q>, Q: PartialEq {
-        match self.pos(k) { Some(i) => { let e = self.items.remove(i); self.items.push(e); self.items.last().map(|e| &e.1) } None => None }
+        match self.pos(k) { Some(i) => { self.touch(i); Some(&self.items[i].1) } None => None }
     }
     pub fn promote<Q: ?Sized>(&mut self, k: &Q) where K: std::borrow::Borrow<Q>, Q: PartialEq {
-        if let Some(i) = self.pos(k) { let e = self.items.remove(i); self.items.push(e); }
+        if let Some(i) = self.pos(k) { self.touch(i); }
     }
     pub fn push(&mut self, k: K, v: V) -> Option<(K, V)> {
-        if let Some(i) = self.pos(&k) { let old = self.items.remove(i); self.items.push((k, v)); return Some(old); }
-        let ev = if self.items.len() >= self.cap { Some(self.items.remove(0)) } else { None };
-        self.items.push((k, v));
-        ev
+        if let Some(i) = self.pos(&k) { self.touch(i); return Some(std::mem::replace(&mut self.items[i], (k, v))); }
+        if self.items.len() >= self.cap {
+            let mut j = 0; let mut i = 1;
+            while i < self.items.len() { if self.stamps[i] < self.stamps[j] { j = i; } i += 1; }
+            self.touch(j);
+            return Some(std::mem::replace(&mut self.items[j], (k, v)));
+        }
+        self.items.push((k, v)); self.clock += 1; self.stamps.push(self.clock);
+        None
     }
     pub fn pop<Q: ?Sized>(&mut self, k: &Q) -> Option<V> where K: std::borrow::Borrow<Q>, Q: PartialEq {
-        match self.pos(k) { Some(i) => Some(self.items.remove(i).1), None => None }
+        match self.pos(k) { Some(i) => { self.stamps.swap_remove(i); Some(self.items.swap_remove(i).1) } None => None }
     }
-    pub fn clear(&mut self) { self.items.clear() }
+    pub fn clear(&mut self) { self.items.clear(); self.stamps.clear(); }
     pub fn len(&self) -> usize { self.items.len() }
     pub fn contains<Q: ?Sized>(&self, k: &Q) -> bool where K: std::borrow::Borrow<Q>, Q: PartialEq { self.pos(k).is_some() }
 }
